@@ -76,6 +76,35 @@ PROPS = {
                  "'fails loudly': update_* are proved panic-free exactly when every referenced id has an image; the converse (a missing image panics rather than writing an index) is by inspection of the three `None => panic!` arms"],
         "design_ref": "DESIGN.md §4 V2 V3, §5 C09",
     },
+    "C10": {
+        "title": "Replacing an import with a built function redirects all its uses",
+        "units": ["V6_api", "V2_reindex", "V3_remap"],
+        "obligations": ["V6_api.convert_import_fn_to_local.*", "V6_api.fn:Module::convert_import_fn_to_local", "V6_api.delete_func.*", "V6_api.fn:Module::delete_func",
+                        "V6_api.fn:Function::set_kind", "V6_api.fn:Functions::get_mut", "V6_api.ModuleImports.delete.*", "V6_api.fn:ModuleImports::delete"]
+                       + V2_GENERIC + v2_inst("Function", "Functions") + ["V3_remap.update_fn_instr.*", "V3_remap.fn:update_fn_instr", "V3_remap.refers_to_func.*"],
+        "glue": [ENCODE_GLUE, "FunctionBuilder::replace_import_in_module_with_tag (type comparison, construction of the LocalFunction) is not under contract"],
+        "design_ref": "DESIGN.md §5 C10",
+    },
+    "C11": {
+        "title": "Converting a local function to an import redirects all its uses",
+        "units": ["V6_api", "V2_reindex", "V3_remap"],
+        "obligations": ["V6_api.convert_local_fn_to_import.*", "V6_api.fn:Module::convert_local_fn_to_import_with_tag", "V6_api.kf.convert_local_fn_to_import.*",
+                        "V6_api.fn:Module::add_import", "V6_api.ModuleImports.add.*", "V6_api.fn:ModuleImports::add", "V6_api.fn:Functions::set_imported_fn_name",
+                        "V2_reindex.lemma.import_order_survives_reorganisation", "V2_reindex.fn:lemma_import_order_preserved", "V2_reindex.fn:lemma_origin_monotone_on_imports"]
+                       + V2_GENERIC + v2_inst("Function", "Functions") + ["V3_remap.update_fn_instr.*", "V3_remap.fn:update_fn_instr", "V3_remap.refers_to_func.*"],
+        "glue": [ENCODE_GLUE],
+        "design_ref": "DESIGN.md §5 C11",
+    },
+    "C29": {
+        "title": "Names stay attached to their entities",
+        "units": ["V6_api", "V2_reindex"],
+        "obligations": ["V6_api.set_fn_name.*", "V6_api.fn:Module::set_fn_name", "V6_api.Functions.set_local_fn_name.*", "V6_api.Functions.set_imported_fn_name.*",
+                        "V6_api.fn:Functions::set_local_fn_name", "V6_api.fn:Functions::set_imported_fn_name", "V6_api.ModuleImports.set_name.*", "V6_api.fn:ModuleImports::set_name",
+                        "V2_reindex.recalculate_ids.live_items_stay_bound", "V2_reindex.reorganise_generic.*", "V2_reindex.fn:reorganise_generic"],
+        "glue": [ENCODE_GLUE, "function names travel inside the Function / Body / Import items that V2 proves are permuted, never rebuilt; emission of the name section is glue",
+                 "stored local-name and global-name maps (IndirectNameMap / NameMap) are re-emitted verbatim by encode_internal and are NOT re-indexed (seen while reading; not decidable by these checks)"],
+        "design_ref": "DESIGN.md §5 C29",
+    },
     "C12": {
         "title": "Built functions appear exactly as built",
         "units": ["V4_inject", "V1_locals"],
